@@ -13,6 +13,7 @@ import Mfi.Props.C08
 import Mfi.Model.Interest
 import Mfi.Lemmas.WorldL
 import Mfi.Lemmas.WorldSolvH
+import Mfi.Lemmas.WorldRecvL
 namespace Mfi.Props.C12
 open Mfi Mfi.Admin Mfi.Gen
 
@@ -367,6 +368,49 @@ theorem world_history_changes_no_configuration (ops : List World.WOp) : ∀ (w :
       · left; rw [o2, a11]
       · right; rw [o2, a11]
     · right; exact o2
+
+/-! #### what the risk admin's forced deleverage reaches (transactions of the world machine, `Mfi/Model/WorldTx.lean`) -/
+
+/-- **world_deleverage_needs_the_risk_admin**: whichever of the two deleverage instructions goes through was signed by the
+    group's risk admin, on an account of that group, with the account's own liquidation record -/
+theorem world_deleverage_needs_the_risk_admin {c : RCtx} :
+    (∀ {shape : Res Unit} {o : StartLiqOut}, startDeleverage c shape = .ok o → c.g.riskAdmin = c.receiver ∧ c.a.group = c.g.key ∧ c.recordOk = true) ∧
+    (∀ {stack : Nat} {o : EndLiqOut}, endDeleverage c stack = .ok o → c.g.riskAdmin = c.receiver ∧ c.a.group = c.g.key ∧ c.recordOk = true ∧
+      c.a.recReceiver = c.receiver) := by
+  constructor
+  · intro shape o h
+    obtain ⟨⟨h1, h2, h3⟩, _⟩ := startDeleverage_ok h
+    exact ⟨h3, h2, h1⟩
+  · intro stack o h
+    obtain ⟨⟨h1, h2, h3⟩, _, h4, _⟩ := endDeleverage_ok h
+    exact ⟨h3, h2, h1, h4⟩
+
+/-- **world_deleverage_bracket_touches_only_the_markers**: the start and the end of a forced deleverage, as instructions of a
+    transaction, change nothing but the account's flag word, the receiver and the snapshot of its liquidation record: no
+    position of any account, no bank, no group setting, not the clock. (What the risk admin does to balances in between goes
+    through withdraw / repay, metered by `world_deleverage_withdrawal_is_metered`.) -/
+theorem world_deleverage_bracket_touches_only_the_markers {w w' : World.WState} {tx : List TOp} {i ai signer : Nat} {ok : Bool}
+    (h : w.stepIn tx i (.startDelev ai signer ok) = some w' ∨ w.stepIn tx i (.endDelev ai signer ok) = some w') :
+    w'.banks = w.banks ∧ w'.g = w.g ∧ w'.now = w.now ∧
+    ∃ a a', w.accts[ai]? = some a ∧ w'.accts = w.accts.set ai a' ∧ a'.slots = a.slots ∧ a'.key = a.key ∧ a'.group = a.group ∧
+      a'.authority = a.authority ∧ a'.migratedTo = a.migratedTo := by
+  rcases h with h | h
+  · simp only [World.WState.stepIn] at h
+    split at h
+    · rename_i a ha
+      split at h
+      · injection h with h; subst h
+        exact ⟨rfl, rfl, rfl, a, _, ha, rfl, rfl, rfl, rfl, rfl, rfl⟩
+      · cases h
+    · cases h
+  · simp only [World.WState.stepIn] at h
+    split at h
+    · rename_i a ha
+      split at h
+      · injection h with h; subst h
+        exact ⟨rfl, rfl, rfl, a, _, ha, rfl, rfl, rfl, rfl, rfl, rfl⟩
+      · cases h
+    · cases h
 
 end world_machine
 
